@@ -72,7 +72,7 @@ func c15e3LPPart(t *testing.T, name string, unlock bool) explore.Part {
 			}
 			rep.OutcomesN = int64(len(rep.Outcomes))
 			rep.States = rep.OutcomesN
-			rep.Rule = fmt.Sprintf("the %d streamsMap scenarios with every mutex %s of streams_map*.go as a scheduler point (files import-rewritten to vsync from the working tree): every schedule with at most %d preemptions (switching away from a thread that could continue)", len(c15e3Variants), map[bool]string{false: "acquisition", true: "acquisition and release (order oracles evaluated at the end of each execution)"}[unlock], bound)
+			rep.Rule = fmt.Sprintf("the %d streamsMap scenarios (OpenStreamSync callers, non-blocking OpenStream calls, AcceptStream callers, event thread) with every mutex %s of streams_map*.go as a scheduler point (files import-rewritten to vsync from the working tree): every schedule with at most %d preemptions (switching away from a thread that could continue)", len(c15e3Variants), map[bool]string{false: "acquisition", true: "acquisition and release (order oracles evaluated at the end of each execution)"}[unlock], bound)
 			rep.Bound = fmt.Sprintf("preemption bound %d completed", bound)
 			return rep
 		},
